@@ -792,15 +792,18 @@ def _process_match(
     if tracked or untracked:
         start = m.start()
         # for literals, the end is the start of the next backreference
-        end = next((m.start(g) for _, g in tracked if g), m.end())
+        end = next((m.start(g) for _, g in tracked
+                    if g and m.start(g) >= 0), m.end())
 
         for literal, group in tracked:
             if literal is None:
                 literal = m.group(group) or ''
                 _copy_part(literal, shift + delta, parts, smap, emap)
                 mask.extend(prev_mask[(start+1):(start+len(literal)+1)])
-                end = (m.start(group+1) if group < (m.lastindex or 0)
-                       else m.end())
+                # the start of the next group that participated in the match
+                end = next((m.start(g)
+                            for g in range(group+1, (m.lastindex or 0)+1)
+                            if m.start(g) >= 0), m.end())
             else:
                 # block if overlap with mask
                 if any(prev_mask[start+1:end+1]):
